@@ -8,9 +8,9 @@ import "sync"
 
 // Stream ids of the tape. Separate streams so that shrinking one does not shift the others.
 const (
-	SWork  = 0 // workload: corpus, expressions, flags, tree shape, histories
-	SFault = 1 // faults: chunk sizes, stalls, latencies, error positions, map-order salt
-	SSched = 2 // schedule: policy, each scheduling decision, each select order
+	SWork    = 0 // workload: corpus, expressions, flags, tree shape, histories
+	SFault   = 1 // faults: chunk sizes, stalls, latencies, error positions, map-order salt
+	SSched   = 2 // schedule: policy, each scheduling decision, each select order
 	nStreams = 3
 )
 
